@@ -1524,6 +1524,8 @@ func (stmt *UpsertIntoStmt) execAt(ctx context.Context, tx *SQLTx, params map[st
 			return nil, fmt.Errorf("%w: specified value must be greater than current one", ErrInvalidValue)
 		}
 
+		conflictUpdate := false
+
 		if stmt.isInsert {
 			if err == nil && stmt.onConflict == nil {
 				return nil, store.ErrKeyAlreadyExists
@@ -1534,6 +1536,9 @@ func (stmt *UpsertIntoStmt) execAt(ctx context.Context, tx *SQLTx, params map[st
 					// ON CONFLICT DO NOTHING
 					continue
 				}
+
+				// the existing row is rewritten: its index entries are handled as in UPDATE
+				conflictUpdate = true
 
 				// Load the CONFLICTING row's current values before applying
 				// the DO UPDATE SET expressions. Without this, bare column
@@ -1607,7 +1612,7 @@ func (stmt *UpsertIntoStmt) execAt(ctx context.Context, tx *SQLTx, params map[st
 			}
 		}
 
-		err = tx.doUpsert(ctx, pkEncVals, valuesByColID, table, !stmt.isInsert)
+		err = tx.doUpsert(ctx, pkEncVals, valuesByColID, table, !stmt.isInsert || conflictUpdate)
 		if err != nil {
 			return nil, err
 		}
